@@ -306,7 +306,7 @@ def _w_match(args):
     def push(f, text, det):
         lst = fam.setdefault(f, [0, []])
         lst[0] += 1
-        lst[1].append((len(text), text, det))
+        lst[1].append((len(text) + len(smi), text, det, smi))
         lst[1].sort()
         del lst[1][5:]
     for smi, mol in mols:
@@ -572,23 +572,55 @@ def bounded(run):
     run.notes['b08_seconds'] = tm
     for k in sorted(fam):
         cnt, lst = fam[k]
-        _, s, det = lst[0]
-        run.violation(k, f'C08 family {k}: {cnt} case(s), shortest {s!r}: {det}', witness={'smarts': s, 'examples': [x[1] for x in lst], 'count': cnt},
-                      native=det)
+        _, s, det, *mol = lst[0]
+        w = {'smarts': s, 'examples': [x[1] for x in lst], 'count': cnt}
+        if mol:
+            w['molecule'] = mol[0]
+            w['example_molecules'] = [x[3] for x in lst]
+        run.violation(k, f'C08 family {k}: {cnt} case(s), shortest {s!r}: {det}', witness=w, native=det)
 
 
 def replay(rec):
-    _setup()
+    S = _setup()
+    Q = S['Q']
     w = rec['witness']
     ok = True
+    if w.get('molecule'):   # matching witness: (query, molecule) pairs
+        from bounded.domains import parse
+        for text, smi in zip(w['examples'], w['example_molecules']):
+            mol = S['smiles'](smi[:-12]) if smi.endswith(' (as parsed)') else parse(smi)
+            q = S['smarts'](text)
+            atoms, bonds = Q.environment(mol)
+            body = text.split()[0]
+            rad = '|^1:0|' in text
+            maps = list(q.get_mapping(mol, automorphism_filter=False, _cython=False))
+            if body.count('[') == 1:
+                ref = Q.read_bracket(body[1:-1])
+                hits = {m[next(iter(q._atoms))] for m in maps}
+                exp = {a for a, e in atoms.items() if Q.atom_matches(ref, e, rad)}
+            else:
+                a1, rest = body[1:].split(']', 1)
+                b, a2 = rest.split('[', 1)
+                r1, rb, r2 = Q.read_bracket(a1), Q.read_bond(b), Q.read_bracket(a2[:-1])
+                q1, q2 = list(q._atoms)
+                hits = {(m[q1], m[q2]) for m in maps}
+                exp = {(u, v) for k, be in bonds.items() if Q.bond_matches(rb, be) for u, v in (tuple(k), tuple(k)[::-1])
+                       if Q.atom_matches(r1, atoms[u]) and Q.atom_matches(r2, atoms[v])}
+            print(f'  {text} on {smi}: hits {sorted(hits)} expected {sorted(exp)}')
+            ok = ok and hits == exp
+        return ok
+    if rec['key'].startswith('smarts-stereo'):
+        n, keys, fam, _ = _w_stereo([c for c in stereo_cases() if c[0] in w['examples']])
+        for k, (cnt, lst) in fam.items():
+            for x in lst:
+                print('  ', x[2])
+        return not fam
     for s in [w['smarts']] + list(w.get('examples', ())):
         if s.startswith('[') and s.endswith(']') and '[' not in s[1:]:
             st, fam, det = judge_bracket(s[1:-1])
         elif s.startswith('C') and s.endswith('N') and '[' not in s:
             st, fam, det = judge_bond(s[1:-1])
         else:
-            print(f'  {s!r}: matching / stereo witness - re-run bin/check C08 (needs the molecule domain)')
-            ok = False
             continue
         print(f'  {s!r}: {st} {fam or ""} {det or ""}')
         ok = ok and st != 'violation'
